@@ -78,8 +78,27 @@ type Interp struct {
 
 type Atom struct {
 	Name string
-	Args []string
-	Res  *Term
+	Vals []Val
+	OK   bool
+}
+
+// sameRef: are two values the same reference / the same symbolic value (syntactically)
+func sameRef(a, b Val) bool {
+	if ia, ok := a.(IfaceV); ok {
+		a = ia.V
+	}
+	if ib, ok := b.(IfaceV); ok {
+		b = ib.V
+	}
+	switch x := a.(type) {
+	case Ptr:
+		y, ok := b.(Ptr)
+		return ok && x.Obj == y.Obj && samePtr(x, y)
+	case SliceV:
+		y, ok := b.(SliceV)
+		return ok && x == y
+	}
+	return sameKey(a, b)
 }
 
 type Failure struct {
